@@ -38,6 +38,9 @@ CommandSignature ExternalCommand::getSignature() const {
   for (const auto* input: inputs) {
     code = code.combine(input->getName());
   }
+  // Mark where the inputs end: a node which moves from the end of the inputs
+  // to the start of the outputs must change the signature.
+  code = code.combine(static_cast<unsigned>(inputs.size()));
   for (const auto* output: outputs) {
     code = code.combine(output->getName());
   }
